@@ -124,6 +124,34 @@ Example C02_chunked_false_example :
 Proof. exact ex_chunked_false_ok. Qed.
 Print Assumptions C02_chunked_false_example.
 
+(* ------------------------------------------------------------------ 2b. a body source that fails part of the way *)
+(* ClientRequest._write_bytes runs writer.write_eof() only in the `else:` of the try around the body write
+   (Generated/WireGen.write_eof_only_after_success, regenerated from the source): when the body source of a chunked
+   request raises after k pieces, the client emits the head and the chunks written so far and NO last-chunk.
+   Then, under every segmentation, the request parser either has seen nothing or is still inside the body: the
+   handler's payload stream is never completed, the truncated prefix is not handed over as a whole body.
+   (With write_eof() after the try - seeded change C02-4 - the generated flag flips and this proof breaks.) *)
+Theorem C02_aborted_body_not_completed : forall lim o r k w',
+  writer_chunking_enabled (c_chunked r) = true ->
+  client_serialize r <> None -> valid lim r = true ->
+  client_serialize_aborted r k = Some w' ->
+  forall segs, concat segs = w' ->
+  exists s a, run_segs lim o init segs [] [] = (s, a, ROk []) /\
+              ((s = init /\ a = []) \/ payload s <> None).
+Proof. exact aborted_body_not_completed. Qed.
+Print Assumptions C02_aborted_body_not_completed.
+
+Example C02_aborted_body_example :
+  let r := built ex_chunked in
+  writer_chunking_enabled (c_chunked r) = true /\ client_serialize r <> None /\ valid lim0 r = true /\
+  client_serialize_aborted r 2 <> None /\
+  digest (run_segs lim0 [] init [wire_aborted r 2] [] []) =
+    (ROk [], [([80; 79; 83; 84], [47; 112], [120], [1], false, None)]) /\
+  digest (run_segs lim0 [] init [wire_of r] [] []) =
+    (ROk [], [([80; 79; 83; 84], [47; 112], [120; 121; 122], [1; 3], true, None)]).
+Proof. exact ex_aborted. Qed.
+Print Assumptions C02_aborted_body_example.
+
 (* ------------------------------------------------------------------ 3. keep-alive, request side *)
 Theorem C02_keepalive_request_side : forall lim i r,
   build i = BOk r -> valid lim r = true ->
